@@ -36,15 +36,17 @@ NameNeed(t) == IF t = "digit" THEN 5 ELSE 3
 \* annotations: "none" member absent, "null" JSON null, "empty" {}: no annotations at all
 \* "multiline": a value with line breaks and non-ASCII text (values are free-form)
 AnnGood == {"none", "null", "empty", "simple", "prefixed", "n63", "two", "multiline"}
-AnnBad  == {"emptykey", "n64", "badprefix", "threeparts", "leaddash", "toolarge", "list"}
+\* "sumlarge": three values of 100 kB - each below the 256 kB limit, together above it
+AnnBad  == {"emptykey", "n64", "badprefix", "threeparts", "leaddash", "toolarge", "sumlarge", "list"}
 AnnNeed(t) == IF t \in {"simple", "prefixed", "n63", "two", "multiline"} THEN 6 ELSE 3
 
 \* "multiline": a value with a line break; "unicode": non-ASCII name and value; "spaces": blanks around name and value
-EnvGood == {"ok", "emptyval", "twoeq", "multiline", "unicode", "spaces"}
+EnvGood == {"ok", "emptyval", "twoeq", "multiline", "unicode", "spaces", "ctl"}   \* "ctl": DEL and a C1 control in the value
 EnvBad  == {"noeq", "noname", "empty", "null", "number"}
 
 NodeGood == {"path", "typed", "blk", "unbuf", "fifo", "perm", "permall", "permlong", "owner", "hostpath"}
-NodeBad  == {"null", "nopath", "emptypath", "badtype", "badperm", "strmajor", "unknown", "list"}
+\* "multitype": two of the valid type letters ("bc")
+NodeBad  == {"null", "nopath", "emptypath", "badtype", "multitype", "badperm", "strmajor", "unknown", "list"}
 NodeNeed(t) == IF t = "hostpath" THEN 5 ELSE 3
 
 MountGood == {"ok", "opts", "typed", "richopts"}   \* "richopts": options with '=', ',', a blank and a line break
